@@ -1742,7 +1742,13 @@ func (e *mcEngine) block(pending []*mcTx, dt uint64) {
 		case p.exp == mustRefuse && took:
 			mcViolation(r, e.ruleFor(mt, p, true), "%s by %s was accepted; model: %s", mt.desc, signerNames(mt.signers), p.why)
 		case p.exp == mustSucceed && !took && !gasFault:
-			mcViolation(r, e.ruleFor(mt, p, false), "%s by %s was refused (%s); model: %s", mt.desc, signerNames(mt.signers), aer.FaultException, p.why)
+			// a refusal changes nothing: if the rule is another property's the
+			// run goes on with the model untouched
+			if rule := e.ruleFor(mt, p, false); strings.SplitN(rule, "/", 2)[0] == r.Prop && !r.shadow {
+				mcViolation(r, rule, "%s by %s was refused (%s); model: %s", mt.desc, signerNames(mt.signers), aer.FaultException, p.why)
+			} else {
+				r.Count("foreign_refusal_not_judged." + rule)
+			}
 		}
 		if !took {
 			continue
